@@ -426,10 +426,21 @@ def run(tier: str, seed: int) -> int:
                            "targets with pending accumulated updates are phase-aligned with the checkpoint")
     if not CONV_TRAINABLE:
         chk.note("Conv2D cells cannot be trained on this tree (presyn_receptive raises): conv is checkpointed without trainer")
-    run_protocol_mc(chk, thorough)
-    traces, rej = run_traces(chk, rng, thorough)
-    canary(chk, traces, rej)
-    probe_deepcopy(chk)
+    # persistence clause for the ring buffers themselves ("ring-buffer contents together with their write
+    # positions"): RecordPersist specification, its TLC runs and graph replays overlap with the trace drivers
+    from concurrent.futures import ThreadPoolExecutor
+    from .record_persist import run_record_persist
+    rp_pool = ThreadPoolExecutor(max_workers=1)
+    rp = None if os.environ.get("G6_SKIP_EXT") else rp_pool.submit(run_record_persist, chk, tier, random.Random(seed + 1))
+    try:
+        run_protocol_mc(chk, thorough)
+        traces, rej = run_traces(chk, rng, thorough)
+        canary(chk, traces, rej)
+        probe_deepcopy(chk)
+        if rp is not None:
+            rp.result()
+    finally:
+        rp_pool.shutdown(wait=True, cancel_futures=True)
     # extensions of the specification beyond the listed property (DESIGN section 7)
     if not os.environ.get("G6_SKIP_EXT"):
         run_module_extras(chk, rng, thorough)
